@@ -73,6 +73,33 @@ func checkIdentityKeys(p *Prog, r *Report, rule string, only func(*ssa.Function)
 		})
 		r.Check(!usesElem, rule, cons+" keeps pointer and value instances apart", p.Pos(posOf(bl.At)), "key is the instance's own type",
 			"the mocker cache key strips the pointer (Elem/Indirect): Struct(&T{}) and Struct(T{}) share one mocker although methods are resolved on the instance type the first caller supplied, so a value-receiver method asked for through the other form is patched at the wrong symbol (the pointer wrapper) or reported missing")
+		// where the key is made to tell generic instantiations apart by appending the function's address, that happens on the
+		// side of the "is an instantiation of a generic function" test where it is one
+		eachInstr(bl.Fn, func(i ssa.Instruction) {
+			v, ok := i.(ssa.Value)
+			if !ok || !dependsOn(bl.Key, func(x ssa.Value) bool { return x == v }) {
+				return
+			}
+			bo, ok := i.(*ssa.BinOp)
+			if !ok || bo.Op != token.ADD || !dependsOn(bo.Y, func(x ssa.Value) bool {
+				c, ok := x.(*ssa.Call)
+				return ok && calleeName(c.Common()) == "(reflect.Value).Pointer"
+			}) {
+				return
+			}
+			for _, g := range guardsAt(bo.Block()) {
+				gc, isCall := g.Cond.(*ssa.Call)
+				if !isCall {
+					continue
+				}
+				cal := staticCallee(gc.Common())
+				if cal == nil || relPkg(cal) != "internal/patch" || cal.Signature.Results().Len() != 1 || !isBool(cal.Signature.Results().At(0).Type()) {
+					continue
+				}
+				r.Check(g.Pol, rule, cons+" tells generic instantiations apart", p.Pos(posOf(bo)), "address appended where "+shortName(cal)+" holds",
+					"the function's address is appended to the cache key exactly when the function is NOT an instantiation of a generic function: all instantiations of one generic function share a key, so asking for the mocker of F[int] after F[string] returns the other instantiation's mocker and the wrong code is patched")
+			}
+		})
 		if needPointer {
 			dep := dependsOn(bl.Key, func(v ssa.Value) bool {
 				c, ok := v.(*ssa.Call)
@@ -89,6 +116,10 @@ func checkIdentityKeys(p *Prog, r *Report, rule string, only func(*ssa.Function)
 				}
 				for _, g := range guardsAt(c.Block()) {
 					if k, _, isKind := kindTest(g.Cond); isKind && k == 22 && !g.Pol {
+						okSide = false
+					}
+					// … nor confined to some other kind (an interface variable is always handed over as a pointer to it)
+					if k, _, isKind := kindTest(g.Cond); isKind && k != 22 && g.Pol {
 						okSide = false
 					}
 					if bo, isB := g.Cond.(*ssa.BinOp); isB && bo.Op == token.NEQ && g.Pol {
@@ -112,7 +143,7 @@ func c06(c *Ctx) {
 		importSibling(c, "C01", "C06.R6", func(rule string) bool { return rule == "C01.R1" || rule == "C01.R6" })
 		// R7: the per-builder and per-type mocker caches are consulted and filled under the same key and hand a mocker back
 		// only if it was found and not cancelled (C12.R1, C12.R5): otherwise another method's / package's mocker is continued
-		importSibling(c, "C12", "C06.R7", func(rule string) bool { return rule == "C12.R1" || rule == "C12.R5" })
+		importSibling(c, "C12", "C06.R7", func(rule string) bool { return rule == "C12.R1" || rule == "C12.R5" || rule == "C12.R3" })
 	}
 	r.Expl = "Structural clauses behind 'method mocks replace exactly the named method': the per-builder cache key of a struct/interface mocker is identity bearing (never reflect.Type.String()); the per-type method caches are keyed by exactly the requested name; for exported methods the patched origin is MethodByName(n).Func for the very name stored in the mocker, passed unchanged through proxy and patch; for unexported methods the symbol name is pkg.(*T).m / pkg.T.m built from the receiver kind, and symbol matching is exact (C10). Dispatch for value receivers and generic shapes at run time is not decided."
 	r.RuleText = "one obligation per (rule, lookup / call site / format)"
@@ -122,7 +153,7 @@ func c06(c *Ctx) {
 	r.Floor("C06.R4", 3)
 	r.Floor("C06.R5", 3)
 	// ---- R1
-	checkIdentityKeys(p, r, "C06.R1", func(f *ssa.Function) bool { return f.Name() == "Struct" }, false)
+	checkIdentityKeys(p, r, "C06.R1", func(f *ssa.Function) bool { return f.Name() == "Struct" || f.Name() == "Func" }, false)
 	// ---- R2 method caches keyed by the exact name parameter
 	for _, f := range p.FuncsIn("") {
 		if f.Signature.Recv() == nil || f.Object() == nil || !f.Object().Exported() {
